@@ -1030,7 +1030,7 @@ def xml_write(e, rng, indent="", pretty=True):
 def sec_xml(cx):
     chk, rng = cx.chk, cx.rng
     elems = [gen_elem(rng) for _ in range(cx.n(300, 6000))]
-    prefs = [rng.choice([("+@", "+content"), ("+@", "+content"), ("_", "#text"), ("@", "+content")]) for _ in elems]
+    prefs = [rng.choice([("+@", "+content"), ("+@", "+content"), ("_", "#text"), ("@", "+content"), ("+", "+content"), ("+c", "+content"), ("#", "#text")]) for _ in elems]
     # ---------- encode: yq writes, xml.etree reads ----------
     reqs = [{"op": "c14_enc", "fmt": "xml", "xml_attr": ap, "xml_content": cn, "indent": rng.choice([0, 2, 2, 4]),
              "node": M([(e[0], xml_value_node(e, ap, cn))])} for e, (ap, cn) in zip(elems, prefs)]
@@ -1119,9 +1119,40 @@ def sec_xml(cx):
 XML_IMPORTS = "From YQ Require Import Base.Str Model.Xml."
 
 
-def coq_prefs(ap, cn, keep_ns=True, skip_proc=False, skip_dir=False):
+def coq_prefs(ap, cn, keep_ns=True, skip_proc=False, skip_dir=False, proc="+p_", directive="+directive"):
     b = lambda x: "true" if x else "false"
-    return "(mkXprefs %s %s %s %s %s true %s %s)" % (vlib.coq_str(ap), vlib.coq_str(cn), vlib.coq_str("+p_"), vlib.coq_str("+directive"), b(keep_ns), b(skip_proc), b(skip_dir))
+    return "(mkXprefs %s %s %s %s %s true %s %s)" % (vlib.coq_str(ap), vlib.coq_str(cn), vlib.coq_str(proc), vlib.coq_str(directive), b(keep_ns), b(skip_proc), b(skip_dir))
+
+
+# preferences whose names overlap: one is a prefix of, or equal to, another (the order of the tests in the encoder and the
+# exclusions in isAttribute decide what a key is)
+XML_OVERLAP_PREFS = [
+    {"xml_attr": "+", "xml_content": "+content"}, {"xml_attr": "+c", "xml_content": "+content"}, {"xml_attr": "+@", "xml_content": "+@"},
+    {"xml_attr": "+", "xml_content": "+content", "xml_proc": "+p_", "xml_directive": "+directive"}, {"xml_attr": "+p", "xml_proc": "+p_"},
+    {"xml_attr": "+p_", "xml_proc": "+p"}, {"xml_attr": "+d", "xml_directive": "+directive"}, {"xml_attr": "+directive", "xml_directive": "+directive"},
+    {"xml_content": "+directive", "xml_directive": "+directive"}, {"xml_content": "+p_c", "xml_proc": "+p_"}, {"xml_proc": "+", "xml_attr": "+a"},
+    {"xml_attr": "x", "xml_content": "xc", "xml_proc": "xp", "xml_directive": "xd"}, {"xml_attr": "x_", "xml_content": "x_c", "xml_proc": "x_", "xml_directive": "x_c"},
+]
+
+
+def prefs_names(pf):
+    return pf.get("xml_attr", "+@"), pf.get("xml_content", "+content"), pf.get("xml_proc", "+p_"), pf.get("xml_directive", "+directive")
+
+
+def gen_overlap_doc(rng, pf):
+    """one root element whose map uses every special key of the preferences (attribute, content, proc-inst, directive) and plain children"""
+    ap, cn, pp, dn = prefs_names(pf)
+    def body(depth):
+        d = {}
+        for k in rng.sample([ap + "id", ap + "k", cn, pp + "pi", dn, "a", "b", "c"], rng.randrange(1, 6)):
+            if k in ("a", "b", "c") and depth < 2 and rng.random() < 0.4:
+                d[k] = body(depth + 1)
+            elif k in ("a", "b", "c") and rng.random() < 0.3:
+                d[k] = [rng.choice(["t", "u v"]), rng.choice(["w", "1"])]
+            else:
+                d[k] = rng.choice(["t", "x y", "1", "DOCTYPE z"])
+        return d
+    return {"r": body(0)}
 
 
 def tok_fields(t):
@@ -1275,7 +1306,8 @@ def sec_xml_model(cx):
                     for _ in range(rng.randrange(1, 9)))
         texts.append(t)
     texts += XML_ADV
-    prefs = [rng.choice([{}, {}, {"xml_attr": "_", "xml_content": "#text"}, {"xml_keep_ns": False}, {"xml_skip_proc": True, "xml_skip_dir": True}]) for _ in texts]
+    prefs = [rng.choice([{}, {}, {"xml_attr": "_", "xml_content": "#text"}, {"xml_keep_ns": False}, {"xml_skip_proc": True, "xml_skip_dir": True}] + XML_OVERLAP_PREFS[:4])
+             for _ in texts]
     treq = vlib.yqh_parallel([{"op": "c14_xmltok", "text_b64": vlib.b64e(t)} for t in texts])
     dreq = vlib.yqh_parallel([dict({"op": "c14_dec", "fmt": "xml", "text_b64": vlib.b64e(t)}, **pf) for t, pf in zip(texts, prefs)])
     cases, inputs = [], []
@@ -1295,7 +1327,8 @@ def sec_xml_model(cx):
             obs = b"O" + obs if obs is not None else b"?"
         else:
             obs = b"E"
-        p = coq_prefs(pf.get("xml_attr", "+@"), pf.get("xml_content", "+content"), pf.get("xml_keep_ns", True), pf.get("xml_skip_proc", False), pf.get("xml_skip_dir", False))
+        p = coq_prefs(pf.get("xml_attr", "+@"), pf.get("xml_content", "+content"), pf.get("xml_keep_ns", True), pf.get("xml_skip_proc", False), pf.get("xml_skip_dir", False),
+                      pf.get("xml_proc", "+p_"), pf.get("xml_directive", "+directive"))
         cases.append(("(%s, [%s])" % (p, ";".join(coq_tok(x) for x in toks)), obs))
         inputs.append(rp)
     cx.correspond("xmldecode", XML_IMPORTS, "(fun c => xml_decode_obs (fst c) (snd c))", cases, inputs, "Model/Xml.v decode_toks vs decoder_xml.go (tokens from encoding/xml)")
@@ -1312,6 +1345,9 @@ def sec_xml_model(cx):
                 docs.append((xdoc_rekey(d), {"xml_attr": "_", "xml_content": "#text"}))
             else:
                 docs.append((d, {}))
+    for pf in XML_OVERLAP_PREFS:
+        for _ in range(cx.n(6, 60)):
+            docs.append((gen_overlap_doc(rng, pf), pf))
     docs += [({"a": {"+@x": ["v"]}}, {}), ({"a": [["x", "y"], "z"]}, {}), ({"a": {"+content": ["x", "y"], "b": "1"}}, {}), ({"a": {"b": "1", "+content": "t", "+@k": "v"}}, {}),
              ("scalar", {}), (None, {}), ({"a": {}}, {}), ({"a": []}, {})]
     ereq = vlib.yqh_parallel([dict({"op": "c14_enc", "fmt": "xml", "indent": 0, "node": xval_node(d)}, **pf) for d, pf in docs])
@@ -1333,7 +1369,7 @@ def sec_xml_model(cx):
             continue
         else:
             obs = b"O" + b"".join(ser_tok(x) for x in tr["toks"] if not tok_blank(x))
-        p = coq_prefs(pf.get("xml_attr", "+@"), pf.get("xml_content", "+content"))
+        p = coq_prefs(pf.get("xml_attr", "+@"), pf.get("xml_content", "+content"), proc=pf.get("xml_proc", "+p_"), directive=pf.get("xml_directive", "+directive"))
         cases.append(("(%s, %s)" % (p, coq_xval(d)), obs))
         inputs.append(rp)
     cx.correspond("xmlencode", XML_IMPORTS, "(fun c => xml_encode_obs (fst c) (snd c))", cases, inputs, "Model/Xml.v encode_toks vs encoder_xml.go (output re-tokenised by encoding/xml)")
